@@ -53,6 +53,7 @@ def run_props(case, tier, props, nontrivial_fn, sample_fn=None):
     res = {"labels": {}, "nontrivial": [], "failures": []}
     lab = res["labels"]
     lab["level_%s" % case.get("level", "x")] = 1
+    lab["source_generated_design" if str(case.get("file", "")).startswith("design:") else "source_fixture_or_replay"] = 1
     lab["style_%s" % style] = 1
     if conf:
         lab["with_generated_configuration"] = 1
